@@ -5,7 +5,8 @@
 PROP = "C05"
 READY = False
 COQ_PROPS = ['Properties_C05']
-TRANSLATORS = []
+TRANSLATORS = ['gen_cpctables']
+EXTRA_OBLIGATIONS = {'Properties_C05': 210}   # finite vm_compute checks on the translated tables (coq/CpcCodecTables.v)
 RULE = ('operation scripts over cpc_sketch / cpc_union registers, lg_k 4..7 (quick) / 4..10 (thorough): (a) streams of real items '
         '(uint64 and strings, MurmurHash3 modelled in Coq and mirrored in the generator to aim the probes) crossing the flavor '
         'boundaries 3k/32, k/2, 27k/8 and the first window shifts; (b) raw row_col streams (private row_col_update) of several shapes '
@@ -101,7 +102,7 @@ class Builder:
     def probe(self, r, sim, full):
         """dump; at a full probe also round-trip and dump the copy"""
         if full:
-            self.ops.append([5, r]); r2 = self.reg(); self.ops.append([6, r, r2]); self.ops.append([5, r2]); self.ops.append([7, r2])
+            self.ops.append([5, r]); self.ops.append([30, r]); r2 = self.reg(); self.ops.append([6, r, r2]); self.ops.append([5, r2]); self.ops.append([30, r2]); self.ops.append([7, r2])
             return r2
         self.ops.append([4, r]); return None
     def feed(self, r, sim, op, rc, bset, full_budget):
@@ -242,6 +243,7 @@ def gen_union(rng, b, lgs):
                 rr = b.reg(); b.ops.append([12, u, rr]); b.ops.append([5, rr])
         res = b.reg(); b.ops.append([12, u, res]); b.ops.append([5, res]); b.ops.append([7, res])
         group.append(len(b.ops) - 2)
+        b.ops.append([30, res])
         if pi == 0:
             # the result keeps working: update it, round-trip it
             for i in range(rng.choice([0, 5, 40])):
@@ -298,6 +300,28 @@ def gen(rng, tier):
         b.ops.append([20, h0, h1, lgk])
     b.tags.add('rowcol')
     add('rowcol', b)
+    # (e) low-level codecs against the translated tables
+    for rep in range(3 if quick else 12):
+        b = Builder(rng)
+        for _ in range(12):
+            ti = rng.randrange(22); n = rng.choice([0, 1, 2, 3, 5, 16, 31, 64, rng.randrange(1, 200)])
+            kind = rng.random()
+            bs = [rng.choice([0, 0, 0, 1, 2, 255, 128, rng.randrange(256)]) if kind < 0.5 else rng.randrange(256) for _ in range(n)]
+            b.ops.append([31, ti] + bs)
+        for _ in range(12):
+            nbb = rng.choice([0, 0, 1, 2, 3, 5, 8, 12, 20, 26])
+            lgk = rng.choice([4, 6, 10, 16, 26]); n = rng.choice([0, 1, 2, 5, 20, 60])
+            ps = sorted(set((rng.randrange(1 << lgk) << 6) | rng.randrange(64) for _ in range(n)))
+            if rng.random() < 0.1 and len(ps) > 1: ps[0], ps[1] = ps[1], ps[0]      # unsorted: refused by both
+            b.ops.append([32, nbb] + ps)
+        for _ in range(30):
+            lgk = rng.choice([4, 5, 7, 10, 12, 16]); k = 1 << lgk
+            c = rng.choice([0, 1, k // 2, 3 * k // 4, 11 * k // 10, 132 * k // 100, 5 * k // 3, 1965 * k // 1000, 2275 * k // 1000,
+                            2375 * k // 1000, rng.randrange(1, 8 * k)]) + rng.choice([-1, 0, 0, 1])
+            b.ops.append([33, lgk, max(0, c)])
+            b.ops.append([34, rng.choice([1, 16, 17, k, k + rng.randrange(k)]), rng.choice([1, 2, 3, rng.randrange(1, 2 * k)])])
+        b.tags.add('codec')
+        add('codec', b)
     return cases
 
 def oracle(case, irecs, mrecs):
@@ -339,7 +363,54 @@ def oracle(case, irecs, mrecs):
             fails.append(dict(sig='union_order', what='union result depends on the order of the inputs', op_index=g[0]))
     return fails
 
-FAMILIES = [dict(name='cpc', harness='drv_cpc.cpp', extract='Extract_cpc.v', model='model_cpc', gen=gen, oracle=oracle)]
+def gen_big(rng, tier):
+    """implementation-only cases at lg_k where the Coq model is too slow: the serialized image must round-trip at every stage"""
+    cases = []
+    ops = [[1, 1, 20, 9001]]
+    n0 = 14250000
+    ops += [[8, 1, 0, n0], [4, 1], [6, 1, 2], [4, 2]]
+    for j in range(3 if tier == 'quick' else 12):
+        ops += [[8, 1, n0 + 250000 * j, 250000], [4, 1], [6, 1, 2], [4, 2]]
+    cases.append(dict(id='big20', ops=ops, tags=['lgk20', 'sliding']))
+    ops = []
+    for lgk in range(4, 27):
+        k = 1 << lgk
+        for c in [27 * k // 8 + 1, 4 * k, 4 * k + 7 * (k >> 4) + 3, 5 * k + 1, 8 * k + (k >> 1), 20 * k, 40 * k + 123]:
+            if c < (1 << 32): ops.append([33, lgk, c])
+    for _ in range(300):
+        lgk = rng.randrange(17, 27); k = 1 << lgk
+        c = rng.randrange(27 * k // 8 + 1, min(1 << 32, 60 * k))
+        ops.append([33, lgk, c])
+    cases.append(dict(id='phase', ops=ops, tags=['pseudo-phase']))
+    return cases
+
+def oracle_big(case, irecs, mrecs):
+    fails = []
+    for i, op in enumerate(case['ops']):
+        if i >= len(irecs): break
+        R = irecs[i]['R']; F = irecs[i].get('F')
+        if op[0] == 6:
+            if R == [-1]:
+                fails.append(dict(sig='serialize_throws', what='serialize()/deserialize() of a valid sketch throws (lg_k 20, stream of %d distinct items)' %
+                                  sum(o[3] for o in case['ops'][:i] if o[0] == 8), op_index=i))
+            elif F:
+                for j, name in enumerate(['stream_vs_bytes', 'reserialize', 'estimator_state']):
+                    if F[j] != 1:
+                        fails.append(dict(sig='roundtrip_' + name, what='round trip: %s differs' % name, op_index=i))
+        if op[0] == 4 and i >= 2 and case['ops'][i - 1][0] == 6 and R != [-1] and irecs[i - 2]['R'] != R and irecs[i - 1]['R'] == [1]:
+            fails.append(dict(sig='roundtrip_state', what='deserialized sketch differs from the original (coupons/offset/fic/flavor)', op_index=i))
+        if op[0] == 4 and R != [-1] and R[2] != 1:
+            fails.append(dict(sig='validate', what='validate() is false', op_index=i))
+        if op[0] == 33 and R != [-1]:
+            k = 1 << op[1]
+            if 8 * op[2] >= 27 * k and R[0] >= 16:
+                fails.append(dict(sig='pseudo_phase_sliding', what='determine_pseudo_phase(lg_k=%d, c=%d) = %d >= 16 for a SLIDING sketch: '
+                                  'compress_sliding_flavor throws "unexpected pseudo phase"' % (op[1], op[2], R[0]), op_index=i))
+    return fails
+
+FAMILIES = [dict(name='cpcbig', harness='drv_cpc.cpp', extract=None, model=None, gen=gen_big, oracle=oracle_big, impl_timeout=600),
+            dict(name='cpc', harness='drv_cpc.cpp', extract='Extract_cpc.v', model='model_cpc', gen=gen, oracle=oracle)]
+FAMILIES = FAMILIES[1:] + FAMILIES[:1]
 
 MANIFEST = dict(
     level_text='(work in progress)',
